@@ -86,7 +86,7 @@ theorem reachable_consistent (c : Cfg) (a : Addr) (sched : List Step) : ((TL.ini
 
 /-- **C14.2** After `stop()` — from ANY state: never started, started, stopped twice, mid-transfer — the
     layer is not started, has no thread objects, an empty relay queue, both FSMs idle, empty tx and rx
-    queues, no request in transmission and all events cleared. -/
+    queues, no request in transmission, all events cleared and no unread input. -/
 theorem stop_clean (t : TL) : t.stop.1.clean = true := TL.stop_clean t
 
 /-- all FSM fields of the logic layer are back to their constructor values -/
@@ -216,21 +216,29 @@ example : (stopBegin ((TL.init cfg addr).run [.start])).ev.stopRequested = true 
     (stopBegin ((TL.init cfg addr).run [.start])).mainThread = .running ∧
     (stopBegin ((TL.init cfg addr).run [.start])).relayThread = .running := by decide +kernel
 
-/-! ### finding: a gap of the model (not of the Python code)
+/-! ### unread input is dropped by `stop()`
 
-`clean` does not mention `core.inbox`, and the model's `stop` does not clear it.  `core.inbox` holds the
-frames the worker has taken out of the relay queue for a `process` pass that has not read them yet (the rx
-loop of `process` stops at a frame that asks for an immediate tx pass, e.g. a Flow Control frame).  In the
-Python code those frames are still in `rx_relay_queue`, which `stop()` drains; in the model they survive
-`stop` and are read after a restart.  So "empty queues" holds of the model only for the queues `clean`
-lists.  Witness (a stray Flow Control frame followed by a Single Frame): -/
+`core.inbox` holds the frames the worker has taken out of the relay queue for a `process` pass that has not
+read them yet (the rx loop of `process` stops at a frame that asks for an immediate tx pass, e.g. a Flow
+Control frame).  In the Python code those frames are still in `rx_relay_queue`, which `stop()` drains.  An
+earlier version of the model kept them across `stop` (found here, repaired in `Threaded.lean`: `stop` sets
+`core.inbox := []` and `clean` requires it to be empty). -/
+
+/-- after `stop()` — from any state — the logic layer has no unread input left -/
+theorem stop_inbox_empty (t : TL) : t.stop.1.core.inbox = [] := TL.stop_inbox t
 
 def fc : CanMsg := { id := 0x456, ext := false, data := [0x30, 0, 0] }
 
-theorem stop_keeps_unread_input_MODEL_GAP :
-    let t := (TL.init cfg addr).run [.start, .busPut fc, .busPut sf, .relayStep, .relayStep, .workerStep, .stop]
-    t.clean = true ∧ t.core.inbox = [(0, sf)] ∧
-    (t.run [.start, .workerStep]).recv.2 = some [1, 2, 3] := by decide +kernel
+/-- the former witness (a stray Flow Control frame followed by a Single Frame; the worker's `process` pass
+    stops after the Flow Control frame, the Single Frame is unread input when `stop` comes): `stop` drops it,
+    and after `stop; start; workerStep` nothing stale is delivered -/
+theorem stop_drops_unread_input :
+    let t0 := (TL.init cfg addr).run [.start, .busPut fc, .busPut sf, .relayStep, .relayStep, .workerStep]
+    let t := t0.run [.stop]
+    t0.core.inbox = [(0, sf)] ∧
+    t.clean = true ∧ t.core.inbox = [] ∧
+    (t.run [.start, .workerStep]).core.rxQueue = [] ∧ (t.run [.start, .workerStep]).recv.2 = none ∧
+    Ev.deliver [1, 2, 3] ∉ (t.run [.start, .workerStep]).core.log := by decide +kernel
 
 end Isotp.C14
 
@@ -253,4 +261,5 @@ end Isotp.C14
 #print axioms Isotp.C14.stop_start_stop_clean
 #print axioms Isotp.C14.stop_stop_clean
 #print axioms Isotp.C14.stop_after_anything
-#print axioms Isotp.C14.stop_keeps_unread_input_MODEL_GAP
+#print axioms Isotp.C14.stop_inbox_empty
+#print axioms Isotp.C14.stop_drops_unread_input
